@@ -30,25 +30,6 @@ def _keyhex(key):
     return repr(key)
 
 
-class LoggingDict(dict):
-    """Observes registrations in Worker.pending_answers (harness-owned
-    instance attribute; the library only uses dict methods on it)."""
-
-    def __init__(self, wb):
-        dict.__init__(self)
-        self._wb = wb
-
-    def update(self, *a, **k):
-        dict.update(self, *a, **k)
-        for d in a:
-            for key in d:
-                self._wb.hist("registered", hbh=_keyhex(key))
-
-    def __setitem__(self, key, v):
-        dict.__setitem__(self, key, v)
-        self._wb.hist("registered", hbh=_keyhex(key))
-
-
 class C14(Check):
     prop = "C14"
     quick_runs = 160
@@ -148,6 +129,30 @@ class C14(Check):
                 sched["opcode"] = True
                 if not sched.get("p_line"):
                     sched["p_line"] = 0.01
+        if nworkers == 2 and rng2.random() < 0.4:
+            # Hop-by-Hop identifiers are unique per connection only: requests built from an explicit header (a
+            # relay forwarding) carry the SAME identifier on the two connections at the same time
+            by_w = {0: [], 1: []}
+            for c in callers:
+                for r in c["reqs"]:
+                    by_w[r["worker"]].append((c, r))
+            base = rng2.choice([0x70000001, 0x0000A001, 0xFFFFFF00])
+            for k_ in range(min(len(by_w[0]), len(by_w[1]), rng2.choice([1, 2, 3]))):
+                for wi in (0, 1):
+                    c, r = by_w[wi][k_]
+                    r["given_hbh"] = base + k_
+                    r["delay"] = max(r["delay"], rng2.choice([0.003, 0.01, 0.02]))
+                    c["start"] = 0.0
+        scn["flap"] = None
+        if rng2.random() < 0.2:
+            # fault: the connection behind a worker is reported down (Worker.is_open cleared, as Worker.run does when
+            # its connection ends) right after an answer has arrived, while the application's main loop is stalled
+            # (descheduled) for up to a few seconds; the flag may come back later.  An answer that has arrived still
+            # belongs to its caller.
+            ci_ = rng2.randrange(len(callers))
+            scn["flap"] = {"caller": ci_, "j": rng2.randrange(len(callers[ci_]["reqs"])),
+                           "main_stall": rng2.choice([0.0, 0.3, 1.2, 2.5]),
+                           "restore_after": rng2.choice([None, 0.5, 3.0])}
         if index % 16 == 13:
             # volume: hundreds of request/answer pairs through the same application object
             nvol = rng2.choice([80, 150, 300])
@@ -162,6 +167,7 @@ class C14(Check):
             scn["stalls"] = []
             scn["func_stalls"] = []
             scn["unsolicited"] = []
+            scn["flap"] = None
             scn["settle"] = 60.0
             scn["horizon"] = 120.0
             scn["max_steps"] = 16_000_000
@@ -185,6 +191,7 @@ class C14(Check):
             scn["stalls"] = []
             scn["func_stalls"] = []
             scn["unsolicited"] = []
+            scn["flap"] = None
             scn["knobs"].update({"BROMELIA_TICKER": 0.02, "PROCESS_TIMER": 0.2, "SEND_THRESHOLD_TICKER": 0.05})
             scn["clock_jumps"] = [] if rng2.random() < 0.5 else [
                 {"t": rng2.choice([0.5, 5.0, 20.0]), "delta": rng2.choice([-3600.0, 40.0, 3600.0])}]
@@ -195,6 +202,7 @@ class C14(Check):
             # full stack (world B2): Bromelia.run() -> Worker.run() -> Diameter.context() -> real nodes on the
             # simulated network, the scripted peer answering on the wire
             draw_full_stack(rng2, scn)
+            scn["flap"] = None
         return scn
 
     def shrink(self, scn):
@@ -251,7 +259,8 @@ class C14(Check):
         violations = []
         knobs = wb.world.knobs
         D = 1.0 + 400 * knobs["BROMELIA_TICKER"] + 100 * knobs["PROCESS_TIMER"] + 10 * knobs["SEND_THRESHOLD_TICKER"] + \
-            sum(fs["dur"] for fs in scn.get("func_stalls") or ()) + 2 * wb.latency()
+            sum(fs["dur"] for fs in scn.get("func_stalls") or ()) + 2 * wb.latency() + \
+            ((scn.get("flap") or {}).get("main_stall") or 0.0)
         results = {}        # (caller, j) -> record
         req_info = {}       # hbh hex -> info
         stats = {"answers_arrived": 0, "dups": 0, "never": 0, "unsolicited": 0, "max_inflight": 0,
@@ -259,7 +268,8 @@ class C14(Check):
         started = [False]
 
         def main(sim):
-            from bromelia.base import DiameterRequest
+            import bromelia.bromelia as bro
+            from bromelia.base import DiameterRequest, DiameterHeader
             from bromelia.avps import SessionIdAVP, OriginHostAVP, OriginRealmAVP, DestinationRealmAVP
             app = wb.build(scn["apps_per_worker"])
             inflight = set()
@@ -268,11 +278,11 @@ class C14(Check):
                 if not msg.header.is_request():
                     return
                 hb = msg.header.hop_by_hop.hex()
-                info = req_info.get(hb)
+                info = req_info.get((stub.index, hb))
                 if info is None:
                     return
                 info["left_at"] = sim.now
-                inflight.add(hb)
+                inflight.add((stub.index, hb))
                 if info["spec"].get("stall_on_send"):
                     for t in sim.threads:
                         if t.role == "B:caller%d" % info["caller"] and t.state != "done":
@@ -295,18 +305,62 @@ class C14(Check):
                     stats["answers_arrived"] += 1
                     info.setdefault("arrived_at", sim.now)
                     stub.arrive(enc)
+                    fl = scn.get("flap")
+                    if fl and (fl["caller"], fl["j"]) == (info["caller"], info["j"]) and not flap_state.get("fired"):
+                        flap_state["fired"] = True
+                        flap_state["worker"] = stub.index
+                        if fl["main_stall"]:
+                            for t in sim.threads:
+                                if "bromelia_main" in t.role and t.state != "done":
+                                    sim.stalled[t.tid] = max(sim.stalled.get(t.tid, 0.0), sim.now + fl["main_stall"])
+                                    sim.stalls_fired += 1
+                                    sim.log("stall", t.role, fl["main_stall"])
+                        ft = flap_state.get("thread")
+                        if ft is not None and ft.state == "blocked":
+                            sim.wake(ft)
                 sim.after(r["delay"], arrive)
                 if r["fate"] == "dup":
                     stats["dups"] += 1
                     sim.after(r["delay"] + r["dup_gap"], arrive)
             for st in wb.stubs:
                 st.on_send = on_send
+            flap_state = {}
+
+            def flapper():
+                # harness thread: performs the flag changes (simulator primitives are not allowed in event context)
+                while not flap_state.get("fired"):
+                    sim.block(("flap",))
+                w_ = wb.workers[flap_state["worker"]]
+                flap_state["down_from"] = sim.now
+                w_.is_open.clear()
+                stats["flaps"] = stats.get("flaps", 0) + 1
+                sim.probe("worker_flag_dropped")
+                ra = scn["flap"].get("restore_after")
+                if ra is not None:
+                    sim.sleep(ra)
+                    w_.is_open.set()
+                    flap_state["down_until"] = sim.now
+                return True
+            if scn.get("flap") and not wb.full_stack:
+                flap_state["thread"] = sim.spawn(flapper, role="B:flapper")
             wb.start()
             if wb.full_stack and not all(w.is_open.is_set() for w in wb.workers):
                 sim.probe("b2_not_open")
                 return None         # the connections did not open: nothing to judge (inconclusive)
-            for w in wb.workers:
-                w.pending_answers = LoggingDict(wb)
+            # registrations are observed at the method the library itself calls; the registry object stays
+            # the library's own (an earlier version replaced it by a harness dict per worker, which would have
+            # hidden any change in how the library shares or keys its registry)
+            _orig_insert = bro.Worker.insert_pending_answer
+
+            def _observed_insert(self_, p_answer):
+                r_ = _orig_insert(self_, p_answer)
+                try:
+                    ci_ = wb.workers.index(self_)
+                except ValueError:
+                    ci_ = -1
+                wb.hist("registered", hbh=_keyhex(p_answer.msg.header.hop_by_hop), conn=ci_)
+                return r_
+            bro.Worker.insert_pending_answer = _observed_insert
             started[0] = True
             if wb.full_stack:
                 sim.probe("b2_open")
@@ -319,15 +373,25 @@ class C14(Check):
                 for j, r in enumerate(spec["reqs"]):
                     app_idx = scn["apps_per_worker"][r["worker"]][0]
                     appid = APPS[app_idx][2]
-                    req = DiameterRequest(application_id=appid, command_code=316,
-                                          avps=[SessionIdAVP(("%s;1;%d%d" % (LOCAL_HOST, ci, j)).encode()),
-                                                OriginHostAVP(LOCAL_HOST), OriginRealmAVP(LOCAL_REALM),
-                                                DestinationRealmAVP(PEER_REALM)])
+                    avps_ = [SessionIdAVP(("%s;1;%d%d" % (LOCAL_HOST, ci, j)).encode()),
+                             OriginHostAVP(LOCAL_HOST), OriginRealmAVP(LOCAL_REALM),
+                             DestinationRealmAVP(PEER_REALM)]
+                    if r.get("given_hbh") is not None:
+                        # a request built from an explicit header, as a relay does when it forwards: Hop-by-Hop
+                        # identifiers are unique per connection only, so the same value may be outstanding on
+                        # another connection at the same time
+                        hdr = DiameterHeader(application_id=appid.to_bytes(4, "big"), command_code=(316).to_bytes(3, "big"),
+                                             hop_by_hop=r["given_hbh"].to_bytes(4, "big"),
+                                             end_to_end=(0x66000000 + 16 * ci + j).to_bytes(4, "big"))
+                        req = DiameterRequest(header=hdr, avps=avps_)
+                        stats["given_hbh"] = stats.get("given_hbh", 0) + 1
+                    else:
+                        req = DiameterRequest(application_id=appid, command_code=316, avps=avps_)
                     hb = req.header.hop_by_hop.hex()
                     tag = ("tag-%d-%d" % (ci, j)).encode()
-                    info = {"caller": ci, "j": j, "spec": r, "tag": tag, "hbh": hb}
-                    req_info[hb] = info
-                    rec = {"caller": ci, "j": j, "hbh": hb, "t0": sim.now, "returned": False,
+                    info = {"caller": ci, "j": j, "spec": r, "tag": tag, "hbh": hb, "conn": r["worker"]}
+                    req_info[(r["worker"], hb)] = info
+                    rec = {"caller": ci, "j": j, "hbh": hb, "conn": r["worker"], "t0": sim.now, "returned": False,
                            "ret": None, "exc": None, "fate": r["fate"]}
                     results[(ci, j)] = rec
                     wb.hist("call", hbh=hb, caller=ci)
@@ -343,7 +407,7 @@ class C14(Check):
                         rec["exc"] = "%s: %s" % (type(e).__name__, e)
                     rec["returned"] = True
                     rec["t1"] = sim.now
-                    inflight.discard(hb)
+                    inflight.discard((r["worker"], hb))
                     wb.hist("return", hbh=hb, caller=ci)
                 return True
 
@@ -372,7 +436,7 @@ class C14(Check):
                     if t.state == "done":
                         continue
                     pend = [r for k, r in results.items() if k[0] == ci and not r["returned"]]
-                    if len(pend) == 1 and pend[0]["fate"] == "never" and "left_at" in req_info[pend[0]["hbh"]]:
+                    if len(pend) == 1 and pend[0]["fate"] == "never" and "left_at" in req_info[(pend[0]["conn"], pend[0]["hbh"])]:
                         continue
                     return False
                 return True
@@ -386,13 +450,20 @@ class C14(Check):
             # ---------------- oracle -----------------
             returned_ids = {}
             for key, rec in sorted(results.items()):
-                info = req_info[rec["hbh"]]
+                info = req_info[(rec["conn"], rec["hbh"])]
                 if rec["returned"]:
                     if rec["exc"]:
                         violations.append({"clause": "send_message raised", "sig": "C14/raised/" + rec["exc"].split(":")[0],
                                            "detail": {"caller": key, "exc": rec["exc"]}})
                         continue
                     ans = rec["ret"]
+                    if ans is None and "left_at" not in info and flap_state.get("down_from") is not None and \
+                            rec["conn"] == flap_state.get("worker") and rec.get("t1", sim.now) >= flap_state["down_from"] and \
+                            rec["t0"] <= flap_state.get("down_until", float("inf")):
+                        # submitted while the worker was flagged down: send_message declines (returns None) by
+                        # design and the request never left; nothing was promised for it
+                        stats["declined_while_down"] = stats.get("declined_while_down", 0) + 1
+                        continue
                     if ans is None or not hasattr(ans, "header"):
                         violations.append({"clause": "caller is given the received answer", "sig": "C14/returned-non-answer",
                                            "detail": {"caller": key, "ret": repr(ans)[:100]}})
@@ -419,9 +490,11 @@ class C14(Check):
                                            "detail": {"caller": key}})
                 else:
                     # still parked: legitimate only if its answer never reached the app layer
-                    taken = [e for e in wb.events if e["kind"] == "taken" and e["hbh"] == rec["hbh"] and not e["req"]]
+                    taken = [e for e in wb.events if e["kind"] == "taken" and e["hbh"] == rec["hbh"] and not e["req"]
+                             and e.get("conn") == rec["conn"]]
                     if taken and sim.now - taken[0]["t"] >= D:
-                        reg = [e for e in wb.events if e["kind"] == "registered" and e["hbh"] == rec["hbh"]]
+                        reg = [e for e in wb.events if e["kind"] == "registered" and e["hbh"] == rec["hbh"]
+                               and e.get("conn") in (rec["conn"], -1)]
                         early = (not reg) or reg[0]["step"] > taken[0]["step"]
                         th = [t for t in sim.threads if t.role == "B:caller%d" % key[0]]
                         violations.append({
@@ -446,6 +519,7 @@ class C14(Check):
                                                          returned=sum(1 for r in results.values() if r["returned"])),
                            extra={"max_inflight": stats["max_inflight"], "fast_answers": stats["fast_answers"],
                                   "faults": {"thread_stall": sim.stalls_fired, "answer_duplicated": stats["dups"],
+                                             "worker_down_flag_flap": stats.get("flaps", 0),
                                              "answer_never": stats["never"], "unsolicited_answer": stats["unsolicited"],
                                              "answer_zero_delay": sum(1 for i in req_info.values()
                                                                       if i["spec"]["delay"] == 0.0 and "arrived_at" in i)}})
